@@ -158,3 +158,352 @@ pub fn char_flags(c: char) -> u8 {
         | ((unicode_ident::is_xid_continue(c) as u8) << 1)
         | ((c.is_whitespace() as u8) << 2)
 }
+
+// ---------------------------------------------------------------------------
+// Parse probe: the shape of the syntax tree (or the error kind and span) and
+// the whole span table of `Parser::parse(0, &mut spans, src)` as one line,
+// diffed against the Lean model of the parser; and the verdict of the literal
+// decoders on one token text.
+
+mod parse_probe_impl {
+    use crate::ast::{
+        Block, Declaration, Expr, FStringPart, FilterType, Params, Path,
+        Pattern, Record, ReturnKind, Stmt, SyntaxTree, TypeExpr,
+    };
+    use crate::parser::{ParseError, Parser, meta::Meta, meta::Spans};
+    use std::panic::{AssertUnwindSafe, catch_unwind};
+
+    fn node(tag: &str, kids: Vec<String>) -> String {
+        let mut s = String::with_capacity(
+            tag.len() + 2 + kids.iter().map(|k| k.len() + 1).sum::<usize>(),
+        );
+        s.push('(');
+        s.push_str(tag);
+        for k in kids {
+            s.push(' ');
+            s.push_str(&k);
+        }
+        s.push(')');
+        s
+    }
+
+    fn path(p: &Path) -> String {
+        node("Path", vec![p.idents.len().to_string()])
+    }
+
+    fn paths(tag: &str, ps: &[Meta<Path>]) -> String {
+        node(tag, ps.iter().map(|p| path(&p.node)).collect())
+    }
+
+    fn ty(t: &TypeExpr) -> String {
+        match t {
+            TypeExpr::Option(t) => node("TOption", vec![ty(&t.node)]),
+            TypeExpr::Path(p, None) => node("TPath", vec![path(&p.node)]),
+            TypeExpr::Path(p, Some(args)) => node(
+                "TPath",
+                vec![
+                    path(&p.node),
+                    node(
+                        "Args",
+                        args.node.iter().map(|t| ty(&t.node)).collect(),
+                    ),
+                ],
+            ),
+            TypeExpr::Never => node("TNever", vec![]),
+            TypeExpr::Unit => node("TUnit", vec![]),
+            TypeExpr::Record(r) => node(
+                "TRecord",
+                r.fields.node.iter().map(|(_, t)| ty(&t.node)).collect(),
+            ),
+        }
+    }
+
+    fn params(p: &Params) -> String {
+        node("Params", p.0.iter().map(|(_, t)| ty(&t.node)).collect())
+    }
+
+    fn block(b: &Block) -> String {
+        let mut kids = vec![paths("Imports", &b.imports)];
+        for s in &b.stmts {
+            kids.push(match &s.node {
+                Stmt::Let(_, None, e) => node("Let", vec![expr(&e.node)]),
+                Stmt::Let(_, Some(t), e) => {
+                    node("Let", vec![ty(&t.node), expr(&e.node)])
+                }
+                Stmt::Expr(e) => node("Expr", vec![expr(&e.node)]),
+            });
+        }
+        if let Some(e) = &b.last {
+            kids.push(node("Last", vec![expr(&e.node)]));
+        }
+        node("Block", kids)
+    }
+
+    fn record(r: &Record) -> Vec<String> {
+        r.fields.iter().map(|(_, e)| expr(&e.node)).collect()
+    }
+
+    fn expr(e: &Expr) -> String {
+        match e {
+            Expr::Return(kind, v) => node(
+                match kind {
+                    ReturnKind::Return => "Return",
+                    ReturnKind::Accept => "Accept",
+                    ReturnKind::Reject => "Reject",
+                },
+                v.iter().map(|e| expr(&e.node)).collect(),
+            ),
+            Expr::Literal(_) => node("Lit", vec![]),
+            Expr::Block(b) => node("BlockE", vec![block(&b.node)]),
+            Expr::Match(m) => {
+                let mut kids = vec![expr(&m.node.expr.node)];
+                for arm in &m.node.arms {
+                    let mut a = vec![match &arm.pattern.node {
+                        Pattern::Underscore => node("Under", vec![]),
+                        Pattern::EnumVariant { fields: None, .. } => {
+                            node("Variant", vec![])
+                        }
+                        Pattern::EnumVariant {
+                            fields: Some(fs), ..
+                        } => node("Variant", vec![fs.node.len().to_string()]),
+                    }];
+                    if let Some(g) = &arm.guard {
+                        a.push(node("Guard", vec![expr(&g.node)]));
+                    }
+                    a.push(block(&arm.body.node));
+                    kids.push(node("Arm", a));
+                }
+                node("Match", kids)
+            }
+            Expr::FunctionCall(f, args) => {
+                let mut kids = vec![expr(&f.node)];
+                kids.extend(args.node.iter().map(|a| expr(&a.node)));
+                node("Call", kids)
+            }
+            Expr::Access(e, _) => node("Access", vec![expr(&e.node)]),
+            Expr::Path(p) => node("PathE", vec![path(&p.node)]),
+            Expr::Record(r) => node("RecordE", record(&r.node)),
+            Expr::TypedRecord(p, r) => {
+                let mut kids = vec![path(&p.node)];
+                kids.extend(record(&r.node));
+                node("TypedRecord", kids)
+            }
+            Expr::List(items) => {
+                node("List", items.iter().map(|e| expr(&e.node)).collect())
+            }
+            Expr::Not(e) => node("Not", vec![expr(&e.node)]),
+            Expr::Negate(e) => node("Negate", vec![expr(&e.node)]),
+            Expr::Assign(p, e) => {
+                node("Assign", vec![path(&p.node), expr(&e.node)])
+            }
+            Expr::CompoundAssign(c) => node(
+                "CompoundAssign",
+                vec![
+                    format!("{:?}", c.op),
+                    path(&c.path.node),
+                    expr(&c.expr.node),
+                ],
+            ),
+            Expr::BinOp(l, op, r) => node(
+                "BinOp",
+                vec![format!("{op:?}"), expr(&l.node), expr(&r.node)],
+            ),
+            Expr::IfElse(c, t, e) => {
+                let mut kids = vec![expr(&c.node), block(&t.node)];
+                if let Some(e) = e {
+                    kids.push(block(&e.node));
+                }
+                node("IfElse", kids)
+            }
+            Expr::While(c, b) => {
+                node("While", vec![expr(&c.node), block(&b.node)])
+            }
+            Expr::For(_, e, b) => {
+                node("For", vec![expr(&e.node), block(&b.node)])
+            }
+            Expr::QuestionMark(e) => {
+                node("QuestionMark", vec![expr(&e.node)])
+            }
+            Expr::FString(parts) => node(
+                "FString",
+                parts
+                    .iter()
+                    .map(|p| match &p.node {
+                        FStringPart::String(_) => node("S", vec![]),
+                        FStringPart::Expr(e) => {
+                            node("E", vec![expr(&e.node)])
+                        }
+                    })
+                    .collect(),
+            ),
+        }
+    }
+
+    fn decl(d: &Declaration) -> String {
+        match d {
+            Declaration::FilterMap(f) => node(
+                match f.filter_type {
+                    FilterType::FilterMap => "FilterMap",
+                    FilterType::Filter => "Filter",
+                },
+                vec![params(&f.params.node), block(&f.body.node)],
+            ),
+            Declaration::Const(c) => {
+                node("Const", vec![ty(&c.ty.node), expr(&c.expr.node)])
+            }
+            Declaration::Record(r) => node(
+                "Record",
+                vec![
+                    r.type_params.len().to_string(),
+                    node(
+                        "Fields",
+                        r.record_type
+                            .fields
+                            .node
+                            .iter()
+                            .map(|(_, t)| ty(&t.node))
+                            .collect(),
+                    ),
+                ],
+            ),
+            Declaration::Enum(e) => {
+                let mut kids = vec![e.type_params.len().to_string()];
+                for v in &e.variants.node {
+                    kids.push(node(
+                        "Variant",
+                        v.fields.iter().map(|t| ty(&t.node)).collect(),
+                    ));
+                }
+                node("Enum", kids)
+            }
+            Declaration::Function(f) => {
+                let mut kids = vec![params(&f.params.node)];
+                if let Some(r) = &f.ret {
+                    kids.push(node("Ret", vec![ty(&r.node)]));
+                }
+                kids.push(block(&f.body.node));
+                node("Function", kids)
+            }
+            Declaration::Test(t) => node("Test", vec![block(&t.body.node)]),
+            Declaration::Import(ps) => paths("Import", ps),
+        }
+    }
+
+    fn tree(t: &SyntaxTree) -> String {
+        node("Tree", t.declarations.iter().map(decl).collect())
+    }
+
+    /// Variant name of the error's `ParseErrorKind` (the enum lives in a
+    /// private module: taken from its `Debug` text).
+    pub(super) fn kind_name(e: &ParseError) -> String {
+        format!("{:?}", e.kind)
+            .chars()
+            .take_while(|c| c.is_ascii_alphanumeric())
+            .collect()
+    }
+
+    fn spans_text(spans: &Spans) -> String {
+        let all = spans.verif_c06_all();
+        if all.is_empty() {
+            return "-".into();
+        }
+        let mut s = String::with_capacity(all.len() * 8);
+        for (i, sp) in all.iter().enumerate() {
+            if i > 0 {
+                s.push(',');
+            }
+            s.push_str(&format!("{}:{}", sp.start, sp.end));
+        }
+        s
+    }
+
+    pub(super) fn panic_text(e: Box<dyn std::any::Any + Send>) -> String {
+        let t = if let Some(s) = e.downcast_ref::<String>() {
+            s.clone()
+        } else if let Some(s) = e.downcast_ref::<&str>() {
+            s.to_string()
+        } else {
+            "?".to_string()
+        };
+        t.replace(['\n', '\r'], " ")
+    }
+
+    pub(super) fn probe(src: &str) -> String {
+        let res = catch_unwind(AssertUnwindSafe(|| {
+            let mut spans = Spans::default();
+            let res = Parser::parse(0, &mut spans, src);
+            let head = match &res {
+                Ok(t) => format!("ok {}", tree(t)),
+                Err(e) => format!(
+                    "err {} {} {} {}",
+                    kind_name(e),
+                    e.location.start,
+                    e.location.end,
+                    match e.hints.first() {
+                        None => "-".to_string(),
+                        Some(h) => {
+                            format!("{}:{}", h.location.start, h.location.end)
+                        }
+                    }
+                ),
+            };
+            format!("{head} | {}", spans_text(&spans))
+        }));
+        match res {
+            Ok(line) => line,
+            Err(e) => format!("panic {}", panic_text(e)),
+        }
+    }
+
+    pub(super) fn literal(kind: char, text: &str, start: usize) -> String {
+        let res = catch_unwind(AssertUnwindSafe(|| {
+            let err = match kind {
+                'F' => Parser::verif_c06_unescape_f_string_part(text).err(),
+                _ => {
+                    // the trailing newline matters: a string whose closing
+                    // quote is the last character of the input is not lexed
+                    // as a string
+                    let input = format!("{text}\n");
+                    let mut spans = Spans::default();
+                    Parser::run_parser(
+                        |p| p.verif_c06_literal(),
+                        0,
+                        &mut spans,
+                        &input,
+                    )
+                    .err()
+                }
+            };
+            match err {
+                None => "-".to_string(),
+                Some(e) => format!(
+                    "{}:{}:{}",
+                    kind_name(&e),
+                    start + e.location.start,
+                    start + e.location.end
+                ),
+            }
+        }));
+        match res {
+            Ok(v) => v,
+            Err(e) => format!("panic {}", panic_text(e)),
+        }
+    }
+}
+
+/// One line for `Parser::parse(0, &mut spans, src)`:
+/// `ok <sexp> | <spans>`, `err <Kind> <start> <end> <hint> | <spans>` or
+/// `panic <text>`. The s-expression gives the shape of the tree only (no
+/// identifier texts, no literal values); `<spans>` is the whole span table
+/// in index order (`s:e,s:e,…`, `-` when empty).
+pub fn parse_probe(src: &str) -> String {
+    parse_probe_impl::probe(src)
+}
+
+/// The verdict of the real decoder on one literal token text (`kind` = 'L':
+/// `Parser::literal` on `text + "\n"`) or on one non-empty f-string text part
+/// (`kind` = 'F': `unescape_f_string_part`): `-` when it decodes, else
+/// `<Kind>:<a>:<b>` with the error location made absolute by `start`.
+pub fn literal_verdict(kind: char, text: &str, start: usize) -> String {
+    parse_probe_impl::literal(kind, text, start)
+}
